@@ -1,4 +1,4 @@
-import Tumfl
+import Tumfl.Spec.Show
 /-!
 # Line-protocol driver
 
@@ -63,6 +63,29 @@ def handle (line : String) : String :=
       | .ok b => "ok " ++ Spec.showBlock b
       | .error (.lex m o) => s!"lexerr {o} {m}"
       | .error (.parse m o) => s!"parseerr {o} {m}"
+  | ["features", h] =>
+    match decodeText h with
+    | none => "bad-op"
+    | some src =>
+      match Spec.lex src with
+      | .error _ => "lexerr"
+      | .ok ts =>
+        let k2 := ts.any fun t => match t.tk with
+          | .num n => (match n.fp, n.ex with | some [], none => true | _, _ => false)
+          | _ => false
+        let k3 := ts.any fun t => match t.tk with
+          | .num n => n.hex && n.ip.isEmpty
+          | _ => false
+        let k1 := match Spec.parseToks ts with
+          | .ok b => decide (((Spec.showBlock (Spec.normBlock b)).splitOn "(paren ").length > 1)
+          | .error _ => false
+        let hi := ts.any fun t => match t.tk with
+          | .str v => v.any fun u => match u with
+            | .byte _ => true
+            | .ch c => c > 0x10FFFF || (0xD800 ≤ c && c ≤ 0xDFFF)
+          | _ => false
+        let cr := src.any (· == '\r')
+        s!"ok k1={k1} k2={k2} k3={k3} bytes={hi} cr={cr}"
   | ["reflex", h] =>
     match decodeText h with
     | none => "bad-op"
